@@ -332,5 +332,33 @@ def replay_file(check, path):
     return 1
 
 
+_known_cache = {}
+
+
+def open_known_sigs(pid):
+    """signatures of OPEN known findings of a property (read-only, cached per process)"""
+    if pid not in _known_cache:
+        path = os.path.join(VERIF_DIR, "known_findings.json")
+        sigs = set()
+        if os.path.exists(path):
+            for k in json.load(open(path)):
+                if k["property"] == pid and k.get("status") == "open":
+                    sigs.add(k["sig"])
+        _known_cache[pid] = sigs
+    return _known_cache[pid]
+
+
+def raise_first_unknown(pid, violations):
+    """a run that exhibits several violations reports one that is not an open known finding,
+    so that a dominating known finding cannot mask a new one"""
+    if not violations:
+        return
+    known = open_known_sigs(pid)
+    for v in violations:
+        if v.sig not in known:
+            raise v
+    raise violations[0]
+
+
 def tb_short(exc, limit=6):
     return "".join(traceback.format_exception(type(exc), exc, exc.__traceback__)[-limit:])
